@@ -124,6 +124,42 @@ theorem deliver_nonblocking (q : Queue) (m : Msg) : (deliver false q m).2 ≠ .b
   · simp
   · split <;> simp
 
+theorem readMsgFromUDP_ne_panic (b : Bytes) : readMsgFromUDP b ≠ .panic := by
+  unfold readMsgFromUDP readMsgFromUDPn
+  split
+  · simp
+  · split <;> simp
+  · next h => exact absurd h (unpackMsg_ne_panic _)
+
+/-- A message comes out of `ReadMsgFromUDP` either because the datagram decodes, or as the header-only
+    stand-in of a datagram that does not. -/
+theorem readMsgFromUDP_msg {b : Bytes} {m : Msg} (h : readMsgFromUDP b = .msg m) :
+    unpackMsg (b.take udpBuf) = .ok m ∨
+    (unpackMsg (b.take udpBuf) = .err ∧ headerOnly (b.take udpBuf) = some m) := by
+  unfold readMsgFromUDP readMsgFromUDPn at h
+  split at h
+  · next m' hm => simp at h; left; rw [hm, h]
+  · next he =>
+    split at h
+    · next m' hh => simp at h; right; exact ⟨he, by rw [hh, h]⟩
+    · simp at h
+  · simp at h
+
+theorem headerOnly_some {d : Bytes} {m : Msg} (h : headerOnly d = some m) :
+    ∃ a b f rest, d = a :: b :: f :: rest ∧ 12 ≤ d.length ∧ (f.toNat / 2) % 2 = 1 ∧
+      m.hdr.id = be16 a b ∧ m.hdr.truncated = true ∧ m.hdr.response = decide ((f.toNat / 128) % 2 = 1) ∧
+      m.questions = [] ∧ m.answers = [] ∧ m.authorities = [] ∧ m.additionals = [] := by
+  unfold headerOnly at h
+  split at h
+  · next a b f rest =>
+    split at h
+    · next hc =>
+      simp at h
+      subst h
+      exact ⟨a, b, f, rest, rfl, hc.1, hc.2, rfl, rfl, rfl, rfl, rfl, rfl, rfl⟩
+    · simp at h
+  · simp at h
+
 theorem unitStep_ne_panic (isTCP : Bool) (b : Bytes) : unitStep isTCP b ≠ .panic := by
   unfold unitStep
   split
@@ -131,11 +167,10 @@ theorem unitStep_ne_panic (isTCP : Bool) (b : Bytes) : unitStep isTCP b ≠ .pan
     · simp
     · simp
     · next h => exact absurd h (unpackMsg_ne_panic _)
-  · simp only
-    split
+  · split
     · simp
     · split <;> simp
-    · next h => exact absurd h (unpackMsg_ne_panic _)
+    · next h => exact absurd h (readMsgFromUDP_ne_panic _)
 
 /-- does unit `b` make the loop close the connection? -/
 def closes (isTCP : Bool) (b : Bytes) : Prop := unitStep isTCP b = .close
